@@ -230,6 +230,9 @@ def gen_rec(rng, faults=True, n_max=10, _allow_outside=False, **kw):
         nodes[start].pop('value', None) if rng.random() < 0.7 else None
         if faults:
             decorate_faults(rng, spec, **kw)
+            if rng.random() < 0.3:
+                # a path node that fails for one half of its argument space: typically in a later iteration only
+                nodes[rng.choice(sorted(P))]['plan'] = [rng.choice(['E1?', 'E2?', 'E3?'])]
         if rng.random() < 0.5:
             r = nodes[dest].setdefault('retry', {'attempts': None, 'delay': None, 'exceptions': None})
             r['use_default'] = True
@@ -389,6 +392,10 @@ def overlay_rec(rng, spec, tries=40, accept=None):
         nodes[dest]['rec'] = {'start': start, 'k': rng.choice([0, 1, 1, 2, mx, mx + 1])}
         nodes[dest].pop('value', None)
         nodes[start]['add_data'] = True
+        if rng.random() < 0.3:
+            # a path node that fails for one half of its argument space: typically in a later iteration only
+            victim = nodes[rng.choice(sorted(P))]
+            victim['plan'] = [rng.choice(['E1?', 'E2?', 'E3?'])]
         if rng.random() < 0.5:
             r = nodes[dest].setdefault('retry', {'attempts': None, 'delay': None, 'exceptions': None})
             r['use_default'] = True
